@@ -71,6 +71,10 @@ pub struct ProcessPlan {
     /// earlier execution of the same plan looked for and did not find (file-probe seam).
     #[serde(default)]
     pub plant_files: Vec<String>,
+    /// Directories ("$RUN/...") an earlier execution of the same plan listed: they exist before
+    /// the calls and hold near misses of the include paths and conventional neighbours.
+    #[serde(default)]
+    pub plant_dirs: Vec<String>,
     /// How the process was started: 0 as `wgsl-sim c18-proc`, 1 through a hard link named
     /// `build-script-build` in the sandbox with cargo-like trailing arguments, 2 with a long
     /// argv[0] that does not exist as a path.
@@ -166,6 +170,9 @@ pub struct WorkerOutput {
     /// environment variables the calls asked for and that were not set
     #[serde(default)]
     pub probed_env: Vec<String>,
+    /// directories the calls listed ("$RUN/..." when inside the sandbox)
+    #[serde(default)]
+    pub probed_dirs: Vec<String>,
     pub log: Vec<String>,
 }
 
@@ -389,6 +396,35 @@ fn run_process(input: &WorkerInput) -> WorkerOutput {
                 let _ = std::fs::write(&full, planted_content(rest));
             }
         }
+        for dir in &p.plant_dirs {
+            if let Some(rest) = dir.strip_prefix("$RUN/") {
+                let full = std::path::Path::new(root).join(rest);
+                let _ = std::fs::create_dir_all(&full);
+                let mut names: Vec<String> = vec![
+                    "common.wgsl".into(),
+                    "prelude.wgsl".into(),
+                    "config.toml".into(),
+                    "0000000000000000.rs".into(),
+                ];
+                for job in &input.pool {
+                    if let Some(include) = &job.include_path {
+                        let base = include.rsplit('/').next().unwrap_or(include);
+                        let (stem, ext) = base.rsplit_once('.').unwrap_or((base, ""));
+                        let mut other_case: String = stem.chars().take(1).flat_map(|c| c.to_uppercase()).collect();
+                        other_case.extend(stem.chars().skip(1));
+                        names.push(format!("{other_case}.{}", ext.to_uppercase()));
+                        names.push(format!("{base}.bak"));
+                        names.push(format!("{stem}.override.{ext}"));
+                    }
+                }
+                for name in names {
+                    let file = full.join(&name);
+                    if !file.exists() {
+                        let _ = std::fs::write(&file, planted_content(&name));
+                    }
+                }
+            }
+        }
     }
     seams::set_clock(p.clock_skew_s, p.clock_jump_s, p.clock_jump_after);
     seams::set_cpu_count(p.cpus);
@@ -417,6 +453,7 @@ fn run_process(input: &WorkerInput) -> WorkerOutput {
     let helper_threads = Arc::new(AtomicU64::new(0));
     let probes = Arc::new(Mutex::new(Vec::<String>::new()));
     let env_probes = Arc::new(Mutex::new(Vec::<String>::new()));
+    let dir_probes = Arc::new(Mutex::new(Vec::<String>::new()));
     let return_all = input.return_all_outcomes;
 
     let mut handles = Vec::new();
@@ -435,6 +472,7 @@ fn run_process(input: &WorkerInput) -> WorkerOutput {
         let helper_threads = helper_threads.clone();
         let probes = probes.clone();
         let env_probes = env_probes.clone();
+        let dir_probes = dir_probes.clone();
         let handle = std::thread::Builder::new()
             .stack_size(16 << 20)
             .spawn(move || {
@@ -472,6 +510,7 @@ fn run_process(input: &WorkerInput) -> WorkerOutput {
                         sched.set_in_call(tid, true);
                         seams::set_file_probe_recording(true);
                         seams::set_env_probe_recording(true);
+                        seams::set_dir_probe_recording(true);
                         seams::set_alloc_points_active(true);
                         let r = std::panic::catch_unwind(std::panic::AssertUnwindSafe(|| {
                             corpus::run_job(&sources[pool_idx], job.include_path.as_deref(), job.options)
@@ -481,6 +520,16 @@ fn run_process(input: &WorkerInput) -> WorkerOutput {
                         seams::set_file_probe_recording(false);
                         let asked_for = seams::take_env_probes();
                         seams::set_env_probe_recording(false);
+                        let listed = seams::take_dir_probes();
+                        seams::set_dir_probe_recording(false);
+                        if !listed.is_empty() {
+                            let mut all = dir_probes.lock().unwrap();
+                            for dir in listed {
+                                if all.len() < 32 && !all.contains(&dir) {
+                                    all.push(dir);
+                                }
+                            }
+                        }
                         if !asked_for.is_empty() {
                             let mut all = env_probes.lock().unwrap();
                             for name in asked_for {
@@ -671,6 +720,16 @@ fn run_process(input: &WorkerInput) -> WorkerOutput {
         let all = env_probes.lock().unwrap();
         all.clone()
     };
+    let probed_dirs: Vec<String> = {
+        let root = input.tmp_dir.clone().unwrap_or_default();
+        let all = dir_probes.lock().unwrap();
+        all.iter()
+            .map(|p| match p.strip_prefix(&root) {
+                Some(rest) if !root.is_empty() => format!("$RUN{rest}"),
+                _ => p.clone(),
+            })
+            .collect()
+    };
     let abort = if !harness_errors.is_empty() {
         Some(format!("harness: {}", harness_errors.join("; ")))
     } else {
@@ -703,6 +762,7 @@ fn run_process(input: &WorkerInput) -> WorkerOutput {
         threads_left_running,
         probed_missing,
         probed_env,
+        probed_dirs,
         log: report.log,
     }
 }
@@ -912,6 +972,7 @@ fn pristine_process(job_count: usize) -> ProcessPlan {
             think_us: 0,
         },
         plant_files: vec![],
+        plant_dirs: vec![],
         argv_kind: 0,
         identity: 0,
     }
@@ -1223,6 +1284,7 @@ pub fn gen_plan(rng: &mut Rng) -> RunPlan {
                 think_us: *rng.pick(&[0u64, 0, 0, 1_000, 5_000_000]),
             },
             plant_files: vec![],
+            plant_dirs: vec![],
             argv_kind: *rng.pick(&[0u8, 0, 1, 2]),
             identity: if rng.chance(600) { rng.next_u64() | 1 } else { 0 },
         });
@@ -1270,6 +1332,7 @@ pub struct RunStats {
     pub processes_with_threads_left_running: u64,
     pub file_probes_recorded: u64,
     pub env_probes_recorded: u64,
+    pub dir_probes_recorded: u64,
     pub plans_rerun_with_planted_files: u64,
     pub alloc_points: u64,
     pub virtual_sleeps: u64,
@@ -1293,6 +1356,8 @@ pub struct RunResult {
     pub probed: Vec<Vec<String>>,
     /// per process: environment variables the calls asked for and that were not set
     pub probed_env: Vec<Vec<String>>,
+    /// per process: directories the calls listed
+    pub probed_dirs: Vec<Vec<String>>,
 }
 
 fn first_difference(a: &str, b: &str) -> String {
@@ -1340,6 +1405,7 @@ fn execute(scratch: &Scratch, golden: &Golden, plan: &RunPlan, record: bool) -> 
     let mut jobs_seen_in_processes: Vec<HashSet<usize>> = Vec::new();
     let mut probed = Vec::new();
     let mut probed_env = Vec::new();
+    let mut probed_dirs = Vec::new();
     // One sandbox per run, shared by the run's processes (what one leaves behind, the next finds).
     let sandbox = scratch.sandbox()?;
     // Simulated processes run one after the other: the only state they can share is the file
@@ -1363,6 +1429,8 @@ fn execute(scratch: &Scratch, golden: &Golden, plan: &RunPlan, record: bool) -> 
         probed.push(out.probed_missing.clone());
         stats.env_probes_recorded += out.probed_env.len() as u64;
         probed_env.push(out.probed_env.clone());
+        stats.dir_probes_recorded += out.probed_dirs.len() as u64;
+        probed_dirs.push(out.probed_dirs.clone());
         stats.processes += 1;
         stats.threads += process.threads.len() as u64;
         stats.steps += out.steps;
@@ -1548,6 +1616,7 @@ fn execute(scratch: &Scratch, golden: &Golden, plan: &RunPlan, record: bool) -> 
         logs,
         probed,
         probed_env,
+        probed_dirs,
     })
 }
 
@@ -1748,6 +1817,7 @@ fn add_stats(a: &mut RunStats, b: &RunStats) {
     a.processes_with_threads_left_running += b.processes_with_threads_left_running;
     a.file_probes_recorded += b.file_probes_recorded;
     a.env_probes_recorded += b.env_probes_recorded;
+    a.dir_probes_recorded += b.dir_probes_recorded;
     a.plans_rerun_with_planted_files += b.plans_rerun_with_planted_files;
     a.alloc_points += b.alloc_points;
     a.virtual_sleeps += b.virtual_sleeps;
@@ -1824,6 +1894,11 @@ fn run_batch(scratch: &Scratch, golden: &Golden, seed: u64, n: u64) -> Result<Ta
                                     local.probe_names.insert(format!("file:{path}"));
                                 }
                             }
+                            for path in r.probed_dirs.iter().flatten() {
+                                if local.probe_names.len() < 200 {
+                                    local.probe_names.insert(format!("dir:{path}"));
+                                }
+                            }
                             for d in r.divergences {
                                 if local.failures.len() < 16 {
                                     local.failures.push((i, plan.clone(), d));
@@ -1832,7 +1907,11 @@ fn run_batch(scratch: &Scratch, golden: &Golden, seed: u64, n: u64) -> Result<Ta
                             // The calls looked for files that do not exist: run the same plan with
                             // those files present. If the answer changes, the file is an input.
                             let plantable = |p: &Vec<String>| p.iter().any(|f| f.starts_with("$RUN/"));
-                            if clean && (r.probed.iter().any(plantable) || r.probed_env.iter().any(|e| !e.is_empty())) {
+                            if clean
+                                && (r.probed.iter().any(plantable)
+                                    || r.probed_env.iter().any(|e| !e.is_empty())
+                                    || r.probed_dirs.iter().any(plantable))
+                            {
                                 // Second executions of the same plan: with the files present, with
                                 // the variables set to "1" (a switch), with the variables naming a
                                 // planted file (a path) next to the planted files. Separately: a
@@ -1865,6 +1944,14 @@ fn run_batch(scratch: &Scratch, golden: &Golden, seed: u64, n: u64) -> Result<Ta
                                         }
                                         variants.push(v);
                                     }
+                                }
+                                if r.probed_dirs.iter().any(plantable) {
+                                    // the directories the calls list exist and hold near misses
+                                    let mut v = plan.clone();
+                                    for (process, listed) in v.processes.iter_mut().zip(&r.probed_dirs) {
+                                        process.plant_dirs = files_of(listed);
+                                    }
+                                    variants.push(v);
                                 }
                                 let mut failed = false;
                                 for planted in variants {
@@ -2044,7 +2131,11 @@ pub fn main(tier: Tier) -> i32 {
         match evidence::write_replay("C18", &format!("{seed}-{run}"), &doc) {
             Ok(path) => {
                 violations += 1;
-                let planted: Vec<&String> = min.processes.iter().flat_map(|p| p.plant_files.iter()).collect();
+                let planted: Vec<&String> = min
+                    .processes
+                    .iter()
+                    .flat_map(|p| p.plant_files.iter().chain(p.plant_dirs.iter()))
+                    .collect();
                 lines.push(format!(
                     "C18 violation: {} (process {}, {}){} replay_exact={exact}",
                     divergence.class,
@@ -2089,7 +2180,7 @@ pub fn main(tier: Tier) -> i32 {
     let coverage = json!({
         "evaluations": tally.runs,
         "distinct_nontrivial": tally.distinct_interleaved_logs.len(),
-        "rule": "one evaluation = one simulated run: 1-3 fresh OS processes (own env, cwd, wall-clock skew), each with 1-6 simulated threads under the seeded baton scheduler executing queues of 1-6 jobs drawn with replacement from a pool of 2-8 jobs (repo shaders, generated shaders, rejected sources x 24 option sets x include/embedded); every outcome compared byte-for-byte with the golden table filled by pristine single-job processes; distinct_nontrivial = distinct event-log hashes among runs with at least one context switch inside a library call",
+        "rule": "one evaluation = one simulated run: 1-3 fresh OS processes (own env, cwd, program name, identity, wall-clock skew), each with 1-6 simulated threads under the seeded baton scheduler executing queues of 1-6 jobs drawn with replacement from a pool of 2-8 jobs (repo shaders, generated shaders, sibling shaders, deep shaders, rejected sources x 30 option sets x include/embedded); 3 % of the runs are long histories (one process, 70-280 calls per thread over 18-48 inputs), 5 % uncontrolled stress runs; every outcome compared byte-for-byte with the golden table filled by pristine single-job processes (a second table for calls whose formatter cannot be started); plans whose calls ask for files, directories or variables in vain are executed again with those present; distinct_nontrivial = distinct event-log hashes among runs with at least one context switch inside a library call",
         "samples": tally.samples,
         "exhaustive": false,
         "library_calls_compared": s.calls,
@@ -2120,6 +2211,7 @@ pub fn main(tier: Tier) -> i32 {
         "processes_with_threads_left_running_informational": s.processes_with_threads_left_running,
         "missing_files_the_calls_looked_for": s.file_probes_recorded,
         "unset_environment_variables_the_calls_asked_for": s.env_probes_recorded,
+        "directories_the_calls_listed": s.dir_probes_recorded,
         "plans_rerun_with_those_files_planted": s.plans_rerun_with_planted_files,
         "names_asked_for_in_vain": tally.probe_names.iter().take(40).collect::<Vec<_>>(),
         "stall_handoffs_baton_holder_blocked_outside_seams": s.stall_handoffs,
@@ -2127,7 +2219,7 @@ pub fn main(tier: Tier) -> i32 {
         "known_findings_hit": known_hits,
         "components": {
             "real": ["wgsl_to_wgpu::create_shader_module* on real OS threads in real fresh processes; std RandomState (keys from the simulator through the getrandom seam); real environment, cwd, file system"],
-            "stub": ["thread scheduling (baton scheduler at verif_point! sites and formatter seam calls)", "formatter process (fault-free procsim model)", "OS entropy and CLOCK_REALTIME (interposed)"],
+            "stub": ["thread scheduling (baton scheduler at verif_point! sites, formatter seam calls, virtual sleeps, every n-th heap allocation)", "formatter process (fault-free procsim model; some spawns fail)", "OS entropy, wall clock (clock_gettime/time/gettimeofday), sleeps, CPU count, host name, user id, parent pid, isatty (interposed)", "answers to file, directory and environment lookups that fail on the first execution (planted on the second)"],
         },
     });
     if let Err(e) = evidence::write(
@@ -2137,8 +2229,9 @@ pub fn main(tier: Tier) -> i32 {
         "exploration",
         coverage,
         &[
-            "interleavings are explored at the granularity of the verif_point! sites and formatter seam calls; code between two sites is atomic to the scheduler",
+            "interleavings are explored at the granularity of the verif_point! sites, formatter seam calls, virtual sleeps and (in half of the processes) every n-th heap allocation; allocation-free code between two sites is atomic to the scheduler; helper threads the code under test starts itself run freely",
             "ASLR, pids and OS thread ids are not behind a seam (DESIGN §3, uncontrolled residue)",
+            "planted files have generic contents, planted variables are set to 1 or to the path of a planted file; only paths inside the run's sandbox can be planted",
             "simulated processes of one run execute one after the other; concurrent runs of the batch share /tmp",
         ],
         wall,
